@@ -127,7 +127,7 @@ def gen_case(chk, i):
         out.append("thread"); out.extend(ops); out.append("end")
     out.append("fini")
     return {"case": i, "mode": mode, "threads": nth, "targets": infos[0]["targets"],
-            "tmpdir": (i % 5 == 4), "shortwrite": (i if i % 4 == 3 else 0), "script": "\n".join(out) + "\n"}
+            "tmpdir": (i % 5 == 4), "shortwrite": (i if i % 4 == 3 else 0), "nostdin": (i % 7 == 5), "script": "\n".join(out) + "\n"}
 
 
 def validate_stream(sdir):
@@ -194,6 +194,8 @@ def run_case(i):
     if info["tmpdir"]:
         env["OVNI_TMPDIR"] = os.path.join(wd, "tmp")
         os.makedirs(env["OVNI_TMPDIR"])
+    if info.get("nostdin"):
+        env["RTDRV_CLOSE_STDIN"] = "1"
     try:
         res = rt.run_script(drv, info["script"], wd, env=env, timeout=120)
         if res.timeout:
